@@ -141,6 +141,18 @@ func c19(c *Ctx) {
 		d := an.NewDeps(c.inRepoOrDry).Of(s.val)
 		nCrypto, nBad := 0, 0
 		for _, root := range an.SortedKeys(d.Roots) {
+			// a secret is made of the OS random source and constants: client state (a field), an argument or a
+			// package variable that flows into it - the session id, a counter, the clock kept somewhere - makes part
+			// of it reproducible even when no generator is called on the spot
+			if (strings.HasPrefix(root, "field:") || strings.HasPrefix(root, "param:") || strings.HasPrefix(root, "free:") || strings.HasPrefix(root, "global:")) && root != "global:Reader" && root != "global:BigEndian" && root != "global:LittleEndian" {
+				site := s.pos
+				if in, ok := d.Sites[root]; ok {
+					site = c.pos(in.Pos())
+				}
+				nBad++
+				r.Violate("R19.S", "source:"+s.name+"<-"+root, site, "the secret "+s.name+" also depends on "+root+", which is not drawn from the OS random source")
+				continue
+			}
 			isRand, isCrypto, isGlobal := isRandRoot(root)
 			if !isRand {
 				continue
